@@ -112,6 +112,33 @@ def body_rel(cfg):
                   evaluations=2, outcome_class="front>1" if len(front["rows"]) >= 2 else "front<=1")
 
 
+def body_nodetail(cfg):
+    """The joiner's own EDP table (eval_in_detail=False, nothing recomputed by the model): its best
+    EDP must equal min(E*L) over the E|L front, and EDP == energy*latency where both are reported."""
+    (sid,) = cfg
+    front = FAM.run_mapper(sid, "EL")
+    raw = FAM.run_mapper(sid, "EDP", eval_in_detail=False)
+    a = _best(front, "EDP")
+    sample = {"spec": sid, "relation": "minEDP-nodetail", "front_rows": len(front["rows"]), "raw_error": raw["error"]}
+    viol = None
+    b = None
+    if raw["error"] is None and raw["rows"]:
+        cols = [r["edp"] for r in raw["rows"] if r["edp"] is not None]
+        b = min(cols) if cols else None
+    if a is not None:
+        if b is None:
+            viol = {"observed": {"raw_edp_table": raw["error"] or "no EDP column"}, "expected": {"min E*L on front": a},
+                    "family": "nodetail-edp-table-unusable"}
+        elif abs(a - b) > REL * abs(a) + 1e-9:
+            viol = {"observed": {"best EDP column of the eval_in_detail=False table": b},
+                    "expected": {"min E*L over the E|L front": a},
+                    "family": f"nodetail-edp-column-{'below' if b < a else 'above'}-front-optimum"}
+    if viol:
+        viol["config"] = sample
+    return Result(outcome=(sid, "nodetail", a, b), nontrivial=len(front["rows"]) >= 2 or sid.startswith(("MV2", "MM2")),
+                  violation=viol, sample=sample, evaluations=2)
+
+
 def sids_of(ctx):
     return list(FAM.MEDIUM_SIDS) if ctx.quick else list(FAM.THOROUGH_SIDS)
 
@@ -124,12 +151,16 @@ def run(ctx):
                 body_run, shard_depth=2, distinct_by_construction=True)
     ctx.explore("cross-metric", lambda p: sids if len(p) == 0 else (RELATIONS if len(p) == 1 else None),
                 body_rel, shard_depth=2, distinct_by_construction=True)
-    ctx.bound(specs=sids, metric_sets=RUN_METRICS, relations=RELATIONS)
+    ctx.explore("edp-table-without-detail", lambda p: sids if len(p) == 0 else None, body_nodetail, shard_depth=1,
+                distinct_by_construction=True)
+    ctx.bound(specs=sids, metric_sets=RUN_METRICS, relations=RELATIONS + ["minEDP on the eval_in_detail=False table"])
 
 
 def replay(ctx, rec):
     c = rec["config"]
-    if "relation" in c:
+    if c.get("relation") == "minEDP-nodetail":
+        r = body_nodetail((c["spec"],))
+    elif "relation" in c:
         r = body_rel((c["spec"], c["relation"]))
     else:
         r = body_run((c["spec"], c["metric"]))
